@@ -152,6 +152,9 @@ def build_cfg(case, scheme="plain", via="full", share=None):
             share["P"] = list(P)
     if via == "full":
         return m.CFG(set(V), set(T), V[0], P)
+    if via == "tuple2":
+        return m.CFG(start_symbol=V[0], productions=tuple(sorted(P, key=repr)) +
+                     tuple(m.Production(V[h], [sym(s) for s in body]) for h, body in prods))
     if via == "list2":
         # productions given as a list in which every production occurs twice (equal, distinct objects): the
         # signature takes any iterable, and the library's own passes hand such lists to the constructor
